@@ -22,10 +22,17 @@ Spaces (every one crossed completely, nothing sampled to reach a verdict):
             x (box, whisker) coverages, Boxplot frames of 3 columns / Series / arrays,
             Boxplot(by=) with groups of unequal size, Violin (frames of 3 columns,
             single columns, jitter answer lo/mid/hi).
+  ladder    (same oracles) generated tie-rich / dyadic inputs with the size on the ladder
+            7,8,9,15,...,1023,1024,1025 (thorough ..4097, 10001): columns for
+            boxplot_stats / Boxplot / Boxplot(by=) / Violin, point sets for pareto_front
+            (d = 1,2,3,5), vectors for standard_normal, nsamples for lhs (structured
+            permutations) and ppos; each ladder case is called again with the same values
+            in other layouts (float32, int64, strided / reversed view, Fortran order,
+            read-only, pandas with a non-default index) and must return the same answer.
 Oracles: Fraction linear percentiles / mean / count of the finite values; numpy-vectorised
 brute-force dominance (comparisons only, exact); stratum membership of the sorted sample.
 """
-import itertools, math
+import itertools, math, os
 from fractions import Fraction
 import numpy as np
 import pandas as pd
@@ -44,7 +51,19 @@ RULE = ("lhs: numpy.random.permutation/uniform replaced by scripted answers; eve
         "groups against each group alone. One case = one call of the function under test on one input; "
         "non-trivial = lhs n>=2, ppos n>=2, standard_normal with >=2 values, pareto with >=2 points, "
         "columns holding at least one NaN/inf or a tie. Cases come from nested product enumeration and "
-        "are distinct by construction.")
+        "are distinct by construction. Size ladder: for every n of the ladder (7..1025 around the powers of "
+        "two and round numbers; thorough ..4097 and 10001) generated inputs - columns {23-level dyadic ties, "
+        "permuted ramp of n distinct integers, ties with NaN/+inf/-inf holes, ramp with one NaN, 0/1 runs, decimal "
+        "ties needing all 53 bits}; "
+        "point sets {all ties, chain, anti-chain, small-integer lattice, lattice with NaN cells, lattice with ties "
+        "broken at 2**-30, front + dominated copies} x d in {1,2,3,5}; vectors {ties, permuted ramp, 0/1 runs, ties broken at 2**-30} x rank methods x cst; lhs "
+        "with 4 structured permutations x 4 ranges x jitter {lo, mid, hi, alternating} and 3 parameters - "
+        "judged by the same exact oracles (Fractions / pairwise definition evaluated in row blocks / rank "
+        "order computed by exact sorting). Layout variants: every ladder input is passed again as float32 "
+        "(only when exact), int64 (integer-valued data), strided and reversed views, Fortran order (2-D), "
+        "read-only array, pandas Series / DataFrame with a non-default index, list; the answer must equal "
+        "the float64 C-contiguous answer (key ...:layout=<name>); a layout rejected with an exception is "
+        "counted.")
 ASSUMPTIONS = [
     "sample percentile = linear interpolation between order statistics (numpy/pandas default, Hyndman-Fan 7), "
     "compared to 1e-9 relative; mean to 1e-12",
@@ -63,6 +82,9 @@ ASSUMPTIONS = [
     "scripted answers stand for numpy.random.permutation / numpy.random.uniform as lhs and Violin call them today; "
     "if an implementation draws differently the answers are not consumed, the output is still judged and the case counted",
     "extension modules rebuilt from the working tree C sources; Cython wrapper C not re-translated",
+    "size ladder: standard_normal above length 64 is judged through the rank order (data sorted exactly by (reference rank, position): scores and returned ranks strictly increase between rank groups and are equal - scores to 1e-12 - inside one), which is the same demand as the pairwise loop used for short vectors",
+    "layout variants: results must equal the float64 C-contiguous result to the tolerance of the check (statistics 1e-9 / mean 1e-12 relative, flags / ranks / lhs samples exactly); only boxplot_stats called directly on a float32 array is compared to 2e-5 relative, because numpy then interpolates percentiles and averages in float32 (rounding 6e-8 relative; Boxplot and Violin convert to float64 first and get the normal tolerance); a layout the function rejects with a Python exception is counted (layout-rejected.*), not judged",
+    "layout variants of lhs: pmin / pmax given as float32 are only judged when nsamples is a power of two (the half stratum width du/2 is then exact in float32): lhs casts pmin to float64 but not pmax, so with numpy >= 2 `pmax[i] - du/2` is evaluated in float32 and the stratum centres move by up to 6e-8 x |pmax|; at the worst-case jitter a sample then leaves its stratum by ~1e-8 (lhs(10, float32[0], float32[1]), jitter -du/2: 9 of 10 samples) - a marginal genuine deviation reported with proposed_fixes/C20-lhs-float32-pmax.diff; the other sizes are counted (unjudged.lhs.float32-bounds-inexact-du) until that fix is in; VERIF_C20_LHS_F32=1 judges every size",
 ]
 TECHNIQUE = ("bounded exhaustive enumeration on the real functions with scripted random-source answers, "
              "exact Fraction / comparison-only reference models")
@@ -76,6 +98,12 @@ EXTRA_CST = [0.05, 0.25, 0.3175, 0.45]
 METHODS = ["average", "min", "max", "first", "dense"]
 RANGES = [(0.0, 1.0), (-5.0, 3.0), (1e-3, 1e3), (7.0, 7.001)]
 BOXCOV = [40, 50, 75, 99]
+LADDER = [7, 8, 9, 15, 16, 17, 31, 32, 33, 63, 64, 65, 100, 127, 128, 129, 255, 256, 257, 500, 501,
+          511, 512, 513, 1000, 1001, 1023, 1024, 1025]
+LADDER_X = [2047, 2048, 2049, 4095, 4096, 4097, 10001]
+SENTINEL = -777.25
+LAY1 = ["f32", "int64", "strided", "reversed", "readonly", "series", "list"]
+LAY2 = ["fortran", "f32", "int64", "strided", "readonly", "frame"]
 
 
 def coverage_pairs():
@@ -137,6 +165,192 @@ def feq(a, b, rel):
         return False
     b = float(b)
     return abs(a - b) <= rel * max(1.0, abs(b))
+
+
+# --------------------------------------------------------------------------- generated inputs (size ladder)
+def coprime_step(n):
+    return next(st for st in range(max(2, n // 3), 2 * n + 3) if math.gcd(st, n) == 1)
+
+
+def gen_col(spec):
+    """spec {"gen": name, "n": n, "seed": s} -> list of floats (structured: ties, dyadic values, holes)"""
+    g, n, s = spec["gen"], spec["n"], spec.get("seed", 0)
+    if g == "ties":            # 23 dyadic levels, every level ~n/23 times
+        return [0.5 * ((i * 7 + s) % 23) for i in range(n)]
+    if g in ("ramp", "onenan"):  # n distinct integers in a scrambled order
+        st = coprime_step(n)
+        col = [float((i * st + s) % n) for i in range(n)]
+        if g == "onenan":
+            col[n // 2] = NAN
+        return col
+    if g == "holes":           # ties with NaN / +inf / -inf anywhere
+        col = [0.5 * ((i * 7 + s) % 23) for i in range(n)]
+        for i in range(n):
+            if i % 5 == 2:
+                col[i] = NAN
+            elif i % 17 == 3:
+                col[i] = INF
+            elif i % 19 == 7:
+                col[i] = -INF
+        return col
+    if g == "two":             # runs of 0 / 1
+        return [float(((i * 3 + s) // 2) % 2) for i in range(n)]
+    if g == "decimal":         # ties, values that need all 53 bits (not representable in float32)
+        return [0.1 * ((i * 7 + s) % 23) + 0.001 * (i % 5) for i in range(n)]
+    if g == "fine":            # coarse ties that are only resolved at the 2**-30 level
+        return [float((i * 7 + s) % 16) + 2.0 ** -30 * ((i * 3) % 5) for i in range(n)]
+    raise ValueError(g)
+
+
+def gen_by(spec):
+    """grouping vectors with categories of unequal size"""
+    g, n = spec["gen"], spec["n"]
+    if g == "mod":             # 'a' every third value: sizes ~n/3 and ~2n/3, interleaved
+        return ["a" if i % 3 == 0 else "b" for i in range(n)]
+    if g == "blocks":          # contiguous: 5 values, the bulk, and the last value alone
+        return [0 if i < 5 else (2 if i == n - 1 else 1) for i in range(n)]
+    raise ValueError(g)
+
+
+def gen_pareto(spec):
+    g, n, d, s = spec["gen"], spec["n"], spec["d"], spec.get("seed", 0)
+    if g in ("ties", "chain", "anti"):
+        return pareto_base(g, n, d, s)
+    i = np.arange(n)
+    dat = np.zeros((n, d))
+    if g in ("lattice", "lattice-nan", "lattice-fine"):        # small integers: heavy ties, many dominated points
+        for k in range(d):
+            dat[:, k] = (i * (3 + 2 * k) + s * (k + 1)) % (5 + k)
+        if g == "lattice-fine":    # ... whose ties are broken at the 2**-30 level (invisible in float32)
+            for k in range(d):
+                dat[:, k] += 2.0 ** -30 * ((i * 5 + k) % 3)
+        if g == "lattice-nan":
+            for k in range(d):
+                dat[(i * 7 + 3 * k + s) % 11 == 0, k] = NAN
+        return dat
+    if g == "front":           # first half: an anti-chain; second half: the same points lowered by 1 (all dominated)
+        h = (n + 1) // 2
+        for k in range(d):
+            a = i[:h] if (k + s) % 2 == 0 else h - 1 - i[:h]
+            dat[:h, k] = a
+            dat[h:, k] = a[:n - h] - 1
+        return dat
+    raise ValueError(g)
+
+
+def expand_perm(p, n):
+    """permutation given explicitly or by name"""
+    if not isinstance(p, str):
+        return list(p)
+    ident = list(range(n))
+    if p == "ident":
+        return ident
+    if p == "rev":
+        return ident[::-1]
+    if p == "rot":
+        return ident[1:] + ident[:1]
+    if p.startswith("rot"):
+        r = int(p[3:]) % n
+        return ident[r:] + ident[:r]
+    if p == "stride":
+        st = coprime_step(n)
+        return [(i * st) % n for i in range(n)]
+    raise ValueError(p)
+
+
+def expand_col(c):
+    return gen_col(c) if isinstance(c, dict) else [dec(v) for v in c]
+
+
+def expand_by(b):
+    return gen_by(b) if isinstance(b, dict) else list(b)
+
+
+def show(vals, k=12):
+    vals = list(vals)
+    if len(vals) <= 2 * k:
+        return repr(vals)
+    return "[%s, ... %d values ..., %s]" % (", ".join(repr(v) for v in vals[:k]), len(vals) - 2 * k,
+                                             ", ".join(repr(v) for v in vals[-k:]))
+
+
+# --------------------------------------------------------------------------- layout variants
+def variant_1d(vals, name):
+    """the values of a float64 vector in another layout; None when the layout does not apply"""
+    arr = np.array(vals, dtype=np.float64)
+    n = len(arr)
+    if name == "f32":
+        a = arr.astype(np.float32)
+        return a if np.array_equal(a.astype(np.float64), arr, equal_nan=True) else None
+    if name == "int64":
+        if n == 0 or not np.isfinite(arr).all() or not (arr == np.floor(arr)).all():
+            return None
+        return arr.astype(np.int64)
+    if name == "strided":
+        big = np.full(2 * n + 1, SENTINEL)
+        big[1::2] = arr
+        return big[1::2]
+    if name == "reversed":
+        return arr[::-1].copy()[::-1]
+    if name == "readonly":
+        a = arr.copy()
+        a.setflags(write=False)
+        return a
+    if name == "series":
+        return pd.Series(arr.copy(), index=5 + 3 * np.arange(n)[::-1])
+    if name == "list":
+        return [float(v) for v in arr]
+    raise ValueError(name)
+
+
+def variant_2d(arr, name):
+    arr = np.array(arr, dtype=np.float64, order="C")
+    if name == "fortran":
+        return np.asfortranarray(arr) if min(arr.shape) >= 2 else None
+    if name == "f32":
+        a = arr.astype(np.float32)
+        return a if np.array_equal(a.astype(np.float64), arr, equal_nan=True) else None
+    if name == "int64":
+        if arr.size == 0 or not np.isfinite(arr).all() or not (arr == np.floor(arr)).all():
+            return None
+        return arr.astype(np.int64)
+    if name == "strided":
+        big = np.full((2 * arr.shape[0] + 1, 2 * arr.shape[1] + 1), SENTINEL)
+        big[1::2, 1::2] = arr
+        return big[1::2, 1::2]
+    if name == "readonly":
+        a = arr.copy()
+        a.setflags(write=False)
+        return a
+    if name == "frame":
+        return pd.DataFrame(arr.copy(), index=5 + 3 * np.arange(arr.shape[0])[::-1])
+    raise ValueError(name)
+
+
+def same_numbers(a, b, rel):
+    """NaN-aware comparison of two float arrays -> index of the first difference or None"""
+    a = np.asarray(a, dtype=np.float64)
+    b = np.asarray(b, dtype=np.float64)
+    if a.shape != b.shape:
+        return "shape %r vs %r" % (a.shape, b.shape)
+    with np.errstate(all="ignore"):
+        ok = (np.isnan(a) & np.isnan(b)) | (a == b) | (np.abs(a - b) <= rel * np.maximum(1.0, np.abs(b)))
+    if ok.all():
+        return None
+    return tuple(int(v) for v in np.argwhere(~ok)[0])
+
+
+def same_table(a, b, rel):
+    """two pandas tables (Series / DataFrame): same row labels, same numbers -> None or a description"""
+    if list(map(str, a.index)) != list(map(str, b.index)):
+        return "row labels %s vs %s" % (show(list(a.index), 6), show(list(b.index), 6))
+    w = same_numbers(np.asarray(a, dtype=np.float64), np.asarray(b, dtype=np.float64), rel)
+    if w is None:
+        return None
+    if isinstance(w, str):
+        return w
+    return "row %r%s: %r vs %r" % (a.index[w[0]], "" if len(w) == 1 else " column %d" % w[1],
+                                   float(np.asarray(a, dtype=np.float64)[w]), float(np.asarray(b, dtype=np.float64)[w]))
 
 
 # --------------------------------------------------------------------------- scripted random source
@@ -220,16 +434,56 @@ def jitter_class(jit):
     return "mixed"
 
 
-def check_lhs(ctx, env, n, pmins, pmaxs, perms, jit, seed=None, scalar_pmax=False, sample=False):
-    """one call of sutils.lhs under scripted (or seeded real) randomness"""
+# see ASSUMPTIONS (float32 bounds are only used when du/2 is exact in float32); VERIF_C20_LHS_F32=1 judges every n
+LHS_F32_ANY_N = os.environ.get("VERIF_C20_LHS_F32") == "1"
+
+
+def lhs_variant(n, pmins, pmaxs, name):
+    """-> (nsamples, pmin, pmax) in another layout or None"""
+    lo, hi = np.array(pmins, dtype=np.float64), np.array(pmaxs, dtype=np.float64)
+    if name == "f32":
+        a, b = variant_1d(lo, "f32"), variant_1d(hi, "f32")
+        if a is None or b is None:
+            return None
+        if not LHS_F32_ANY_N and (n & (n - 1)) != 0:
+            return "inexact"
+        return n, a, b
+    if name in ("int64", "strided", "readonly", "series"):
+        a, b = variant_1d(lo, name), variant_1d(hi, name)
+        return None if a is None or b is None else (n, a, b)
+    if name == "tuple":
+        return n, tuple(pmins), tuple(pmaxs)
+    if name == "n-int64":
+        return np.int64(n), list(pmins), list(pmaxs)
+    if name == "n-int32":
+        return np.int32(n), list(pmins), list(pmaxs)
+    if name == "n-float":
+        return float(n), list(pmins), list(pmaxs)
+    raise ValueError(name)
+
+
+LHS_LAYOUTS = ["f32", "int64", "strided", "readonly", "series", "tuple", "n-int64", "n-int32", "n-float"]
+
+
+def check_lhs(ctx, env, n, pmins, pmaxs, perms, jit, seed=None, scalar_pmax=False, sample=False,
+              layouts=(), sfx=""):
+    """one call of sutils.lhs under scripted (or seeded real) randomness; perms may name structured
+    permutations ("ident", "rev", "rot", "rot<k>", "stride"); layouts: the call is repeated with
+    nsamples / pmin / pmax in other layouts and must return the same samples"""
     from hydrodiy.stat import sutils
 
     def case():
-        return {"kind": "lhs", "n": n, "pmin": list(pmins), "pmax": list(pmaxs), "perms": perms,
-                "jitter": jit, "seed": seed, "scalar_pmax": scalar_pmax}
+        c = {"kind": "lhs", "n": n, "pmin": list(pmins), "pmax": list(pmaxs), "perms": perms,
+             "jitter": jit, "seed": seed, "scalar_pmax": scalar_pmax}
+        if layouts:
+            c["layouts"] = list(layouts)
+        if sfx:
+            c["sfx"] = sfx
+        return c
     p = len(pmins)
+    xperms = None if perms is None else [expand_perm(q, n) for q in perms]
     if seed is None:
-        env.script(perms, jit)
+        env.script(xperms, jit)
     else:
         env.script(None, None)
         env.restore()
@@ -242,7 +496,7 @@ def check_lhs(ctx, env, n, pmins, pmaxs, perms, jit, seed=None, scalar_pmax=Fals
                 env.install()
     except Exception as e:
         ctx.case(n >= 2, sample=case() if sample else None)
-        ctx.violation("lhs:raised:%s" % type(e).__name__, case(), "lhs raised %r" % (e,))
+        ctx.violation("lhs:raised:%s%s" % (type(e).__name__, sfx), case(), "lhs raised %r" % (e,))
         return
     ctx.case(n >= 2, outcome=smp.tobytes(), sample=case() if sample else None)
     if seed is None and (env.unscripted or env.nperm != p or env.nunif != p):
@@ -250,7 +504,7 @@ def check_lhs(ctx, env, n, pmins, pmaxs, perms, jit, seed=None, scalar_pmax=Fals
     else:
         ctx.count("lhs.scripted" if seed is None else "lhs.seeded-real-draw")
     if smp.shape != (n, p):
-        ctx.violation("lhs:shape", case(), "expected shape %r, got %r" % ((n, p), smp.shape))
+        ctx.violation("lhs:shape" + sfx, case(), "expected shape %r, got %r" % ((n, p), smp.shape))
         return
     jc = jitter_class(jit)
     for j in range(p):
@@ -259,12 +513,37 @@ def check_lhs(ctx, env, n, pmins, pmaxs, perms, jit, seed=None, scalar_pmax=Fals
         ok = (col >= lo) & (col < hi)
         if not ok.all():
             k = int(np.where(~ok)[0][0])
-            ctx.violation("lhs:one-per-stratum:jitter=%s" % jc, case(),
+            ctx.violation("lhs:one-per-stratum:jitter=%s%s" % (jc, sfx), case(),
                           "parameter %d range [%r,%r] n=%d: the %d-th smallest sample %r is outside stratum %d "
                           "[%r, %r)" % (j, pmins[j], pmaxs[j], n, k, float(col[k]), k,
                                         float(lo[k]), float(hi[k])),
-                          observed=enc_list(smp[:, j]))
+                          observed=enc_list(smp[:, j] if n <= 300 else smp[:50, j]))
             break
+    # ---- the same call with the arguments in other layouts (scripted randomness only)
+    for name in (layouts if seed is None else ()):
+        v = lhs_variant(n, pmins, pmaxs, name)
+        if v is None:
+            ctx.count("layout-not-applicable.lhs.%s" % name)
+            continue
+        if v == "inexact":
+            ctx.count("unjudged.lhs.float32-bounds-inexact-du")
+            continue
+        env.script(xperms, jit)
+        try:
+            alt = sutils.lhs(*v)
+        except Exception as e:
+            ctx.case(n >= 2)
+            ctx.count("layout-rejected.lhs.%s.%s" % (name, type(e).__name__))
+            continue
+        alt = np.asarray(alt)
+        ctx.case(n >= 2, outcome=(name, alt.tobytes()))
+        ctx.count("layout.lhs.%s" % name)
+        if alt.shape != smp.shape or not np.array_equal(alt, smp):
+            w = "shape %r" % (alt.shape,) if alt.shape != smp.shape else \
+                "max difference %r" % float(np.max(np.abs(alt.astype(np.float64) - smp)))
+            ctx.violation("lhs:layout=%s" % name, case(),
+                          "lhs(n=%d) with the arguments as %s returns other samples than with python lists of "
+                          "float (%s)" % (n, name, w))
 
 
 def jitter_patterns(n):
@@ -327,6 +606,29 @@ def run_lhs_unit(unit, ctx):
                             first = False
                         alt = "".join("lh"[i % 2] for i in range(n))
                         check_lhs(ctx, env, n, [pmin], [pmax], [perm], [alt])
+        elif k == "lhslad":
+            first = True
+            for n in unit["ns"]:
+                for pi, perm in enumerate(("ident", "rev", "rot", "stride")):
+                    for ri, (pmin, pmax) in enumerate(RANGES):
+                        alt = "".join("lh"[i % 2] for i in range(n))
+                        for pat in ("l", "m", "h", alt):
+                            lay = LHS_LAYOUTS if (pat in "lh" and pi == (ri + 1) % 4) else ()
+                            check_lhs(ctx, env, n, [pmin], [pmax], [perm], [pat], sample=first and n < 40,
+                                      layouts=lay, sfx=":ladder")
+                            first = False
+                # 3 parameters, a rotated permutation per parameter, ranges rotated
+                for r0 in range(len(RANGES)):
+                    pmins = [RANGES[(r0 + j) % 4][0] for j in range(3)]
+                    pmaxs = [RANGES[(r0 + j) % 4][1] for j in range(3)]
+                    for pat in "lh":
+                        check_lhs(ctx, env, n, pmins, pmaxs, ["stride", "rot%d" % (n // 3), "rev"], [pat] * 3,
+                                  layouts=LHS_LAYOUTS if r0 == 0 else (), sfx=":ladder")
+                # float32 / int64 representable bounds
+                for pmins, pmaxs in (([0.0, -5.0, 7.0], [1.0, 3.0, 8.0]),):
+                    for pat in "lh":
+                        check_lhs(ctx, env, n, pmins, pmaxs, ["rev", "stride", "ident"], [pat] * 3,
+                                  layouts=LHS_LAYOUTS, sfx=":ladder")
         elif k == "lhsreal":
             n = unit["n"]
             for t in range(unit["draws"]):
@@ -339,33 +641,75 @@ def run_lhs_unit(unit, ctx):
 
 
 # --------------------------------------------------------------------------- ppos
-def check_ppos(ctx, n, cst, sample=False):
+def check_ppos(ctx, n, cst, sample=False, layouts=(), sfx=""):
     from hydrodiy.stat import sutils
     case = {"kind": "ppos", "n": n, "cst": cst}
+    if layouts:
+        case["layouts"] = list(layouts)
+    if sfx:
+        case["sfx"] = sfx
     try:
         pp = np.asarray(sutils.ppos(n, cst), dtype=np.float64)
     except Exception as e:
         ctx.case(n >= 2)
-        ctx.violation("ppos:raised:%s" % type(e).__name__, case, "ppos(%d, %r) raised %r" % (n, cst, e))
+        ctx.violation("ppos:raised:%s%s" % (type(e).__name__, sfx), case, "ppos(%d, %r) raised %r" % (n, cst, e))
         return
     ctx.case(n >= 2, outcome=hash(pp.tobytes()), sample=case if sample else None)
     if pp.shape != (n,):
-        ctx.violation("ppos:length", case, "expected %d positions, got shape %r" % (n, pp.shape))
+        ctx.violation("ppos:length" + sfx, case, "expected %d positions, got shape %r" % (n, pp.shape))
         return
     if n == 0:
         return
     if not (np.diff(pp) > 0).all():
-        ctx.violation("ppos:strictly-increasing", case, "plotting positions not strictly increasing",
+        ctx.violation("ppos:strictly-increasing" + sfx, case, "plotting positions not strictly increasing",
                       observed=enc_list(pp[:20]))
     if not (pp[0] > 0 and pp[-1] < 1 and np.isfinite(pp).all()):
-        ctx.violation("ppos:inside-(0,1)", case, "positions leave (0,1): first %r last %r" % (pp[0], pp[-1]))
+        ctx.violation("ppos:inside-(0,1)" + sfx, case, "positions leave (0,1): first %r last %r" % (pp[0], pp[-1]))
     if not (np.abs(pp + pp[::-1] - 1.0) <= 1e-12).all():
-        ctx.violation("ppos:symmetry", case, "pp[i] + pp[n-1-i] != 1 (max dev %r)" %
+        ctx.violation("ppos:symmetry" + sfx, case, "pp[i] + pp[n-1-i] != 1 (max dev %r)" %
                       float(np.max(np.abs(pp + pp[::-1] - 1.0))))
+    # ---- the size / constant given as numpy scalars: same positions
+    for name in layouts:
+        if name == "n-int64":
+            a = (np.int64(n), cst)
+        elif name == "n-int32":
+            a = (np.int32(n), cst)
+        elif name == "cst-f64":
+            a = (n, np.float64(cst))
+        elif name == "cst-f32":
+            if float(np.float32(cst)) != cst:
+                ctx.count("layout-not-applicable.ppos.cst-f32")
+                continue
+            a = (n, np.float32(cst))
+        else:
+            raise ValueError(name)
+        try:
+            alt = np.asarray(sutils.ppos(*a))
+        except Exception as e:
+            ctx.case(n >= 2)
+            ctx.count("layout-rejected.ppos.%s.%s" % (name, type(e).__name__))
+            continue
+        ctx.case(n >= 2, outcome=(name, hash(alt.tobytes())))
+        ctx.count("layout.ppos.%s" % name)
+        # float32 constant: numpy keeps float64 for an int64 arange minus a float32 scalar; 1e-12 as for symmetry
+        w = same_numbers(alt, pp, 1e-12)
+        if w is not None:
+            ctx.violation("ppos:layout=%s" % name, case,
+                          "ppos(%d, %r) with the arguments as %s differs from the python int / float call at %r" % (
+                              n, cst, name, w))
+
+
+PPOS_LAYOUTS = ["n-int64", "n-int32", "cst-f64", "cst-f32"]
 
 
 def run_ppos_unit(unit, ctx):
     first = True
+    if unit["kind"] == "pposlad":
+        for n in unit["ns"]:
+            for cst in unit["csts"]:
+                check_ppos(ctx, n, cst, sample=first, layouts=PPOS_LAYOUTS, sfx=":ladder")
+                first = False
+        return
     for n in range(unit["lo"], unit["hi"]):
         for cst in unit["csts"]:
             check_ppos(ctx, n, cst, sample=first)
@@ -395,9 +739,50 @@ def ref_ranks(x, method):
     return out
 
 
-def check_snorm(ctx, x, cst, method, srt, sample=False):
+def ref_ranks_sorted(x, method):
+    """reference ranks (doubled, as ints) by exact sorting: O(n log n) twin of ref_ranks for long vectors"""
+    n = len(x)
+    order = sorted(range(n), key=lambda i: (x[i], i))
+    out = [0] * n
+    a = 0
+    dense = 0
+    while a < n:
+        b = a
+        while b + 1 < n and x[order[b + 1]] == x[order[a]]:
+            b += 1
+        dense += 1
+        for t in range(a, b + 1):          # positions a..b (0-based) share one value: ranks a+1 .. b+1
+            i = order[t]
+            if method == "min":
+                r = 2 * (a + 1)
+            elif method == "max":
+                r = 2 * (b + 1)
+            elif method == "average":
+                r = (a + 1) + (b + 1)
+            elif method == "first":
+                r = 2 * (t + 1)            # order is stable in the position
+            else:
+                r = 2 * dense
+            out[i] = r
+        a = b + 1
+    return out
+
+
+def snorm_variant(x, name):
+    return variant_1d(x, name)
+
+
+SNORM_LAYOUTS = ["f32", "int64", "strided", "reversed", "readonly", "series", "list"]
+
+
+def check_snorm(ctx, x, cst, method, srt, sample=False, spec=None, layouts=(), sfx=""):
     from hydrodiy.stat import sutils
-    case = {"kind": "snorm", "x": enc_list(x), "cst": cst, "method": method, "sorted": srt}
+    case = {"kind": "snorm", "x": spec if spec is not None else enc_list(x), "cst": cst, "method": method,
+            "sorted": srt}
+    if layouts:
+        case["layouts"] = list(layouts)
+    if sfx:
+        case["sfx"] = sfx
     n = len(x)
     nt = n >= 2
     arr = np.array(x, dtype=np.float64)
@@ -417,38 +802,130 @@ def check_snorm(ctx, x, cst, method, srt, sample=False):
         rk = np.asarray(rk, dtype=np.float64)
     except Exception as e:
         ctx.case(nt)
-        ctx.violation("standard_normal:raised:%s" % type(e).__name__, case, "raised %r" % (e,))
+        ctx.violation("standard_normal:raised:%s%s" % (type(e).__name__, sfx), case, "raised %r" % (e,))
         return
     ctx.case(nt, outcome=hash(u.tobytes()), sample=case if sample else None)
     if u.shape != (n,) or rk.shape != (n,):
-        ctx.violation("standard_normal:length", case, "shapes %r %r for %d values" % (u.shape, rk.shape, n))
+        ctx.violation("standard_normal:length" + sfx, case, "shapes %r %r for %d values" % (u.shape, rk.shape, n))
         return
-    ref = [Fraction(i) for i in range(n)] if srt else ref_ranks(x, method)
     mkey = "sorted" if srt else method
     if len(set(x)) < n:
         ctx.count("snorm.ties")
+    if n <= 64:
+        ref = [Fraction(i) for i in range(n)] if srt else ref_ranks(x, method)
+        judge_snorm_pairs(ctx, case, n, ref, u, rk, mkey, sfx)
+    else:
+        ref = list(range(n)) if srt else ref_ranks_sorted(x, method)
+        judge_snorm_sorted(ctx, case, n, ref, u, rk, mkey, sfx)
+    # ---- the same vector in other layouts: same scores and ranks
+    for name in layouts:
+        v = snorm_variant(x, name)
+        if v is None:
+            ctx.count("layout-not-applicable.standard_normal.%s" % name)
+            continue
+        try:
+            u2, rk2 = sutils.standard_normal(v, cst, srt, method)
+            u2 = np.asarray(u2, dtype=np.float64)
+            rk2 = np.asarray(rk2, dtype=np.float64)
+        except Exception as e:
+            ctx.case(nt)
+            ctx.count("layout-rejected.standard_normal.%s.%s" % (name, type(e).__name__))
+            continue
+        ctx.case(nt, outcome=(name, hash(u2.tobytes())))
+        ctx.count("layout.standard_normal.%s" % name)
+        w = same_numbers(u2, u, 1e-12)
+        w = w if w is not None else same_numbers(rk2, rk, 0.0)
+        if w is not None:
+            ctx.violation("standard_normal:layout=%s:%s" % (name, mkey), case,
+                          "standard_normal of the same %d values given as %s differs from the float64 array call at %r" % (
+                              n, name, w))
+
+
+def judge_snorm_pairs(ctx, case, n, ref, u, rk, mkey, sfx=""):
     for i in range(n):
         for j in range(n):
             if ref[i] < ref[j]:
                 if not (u[i] < u[j]):
-                    ctx.violation("standard_normal:not-strictly-increasing-in-rank:%s" % mkey, case,
+                    ctx.violation("standard_normal:not-strictly-increasing-in-rank:%s%s" % (mkey, sfx), case,
                                   "rank %s < rank %s but score %r !< %r" % (ref[i], ref[j], u[i], u[j]),
                                   observed=enc_list(u))
                     return
                 if not (rk[i] < rk[j]):
-                    ctx.violation("standard_normal:returned-ranks:%s" % mkey, case,
+                    ctx.violation("standard_normal:returned-ranks:%s%s" % (mkey, sfx), case,
                                   "returned ranks %r do not order like the %s ranks %s" %
                                   (rk.tolist(), mkey, [str(r) for r in ref]))
                     return
             elif ref[i] == ref[j] and i < j:
                 if not (abs(u[i] - u[j]) <= 1e-12):
-                    ctx.violation("standard_normal:equal-ranks-differ:%s" % mkey, case,
+                    ctx.violation("standard_normal:equal-ranks-differ:%s%s" % (mkey, sfx), case,
                                   "equal ranks but scores %r and %r" % (u[i], u[j]), observed=enc_list(u))
                     return
                 if not (rk[i] == rk[j]):
-                    ctx.violation("standard_normal:returned-ranks:%s" % mkey, case,
+                    ctx.violation("standard_normal:returned-ranks:%s%s" % (mkey, sfx), case,
                                   "returned ranks %r differ for tied %s ranks" % (rk.tolist(), mkey))
                     return
+
+
+def judge_snorm_sorted(ctx, case, n, ref, u, rk, mkey, sfx=""):
+    """the pairwise demand through the rank order: the values are grouped by reference rank (exact sort);
+    inside a group all scores lie within 1e-12 of the first and all returned ranks are equal; between
+    consecutive groups max(score of the lower) < min(score of the higher) and the returned ranks increase -
+    by transitivity this is the demand of the pairwise loop on every pair"""
+    order = sorted(range(n), key=lambda i: (ref[i], i))
+    groups = []
+    for i in order:
+        if groups and ref[groups[-1][0]] == ref[i]:
+            groups[-1].append(i)
+        else:
+            groups.append([i])
+    for g in groups:
+        h = g[0]
+        for i in g[1:]:
+            if not (abs(u[i] - u[h]) <= 1e-12):
+                ctx.violation("standard_normal:equal-ranks-differ:%s%s" % (mkey, sfx), case,
+                              "n=%d: values %d and %d have equal ranks but scores %r and %r" % (n, h, i, float(u[h]), float(u[i])))
+                return
+            if not (rk[i] == rk[h]):
+                ctx.violation("standard_normal:returned-ranks:%s%s" % (mkey, sfx), case,
+                              "n=%d: returned ranks %r and %r differ for the tied values %d and %d" % (
+                                  n, rk[h], rk[i], h, i))
+                return
+    for lo, hi in zip(groups[:-1], groups[1:]):
+        a = max(lo, key=lambda i: u[i])
+        b = min(hi, key=lambda i: u[i])
+        if not (u[a] < u[b]):
+            ctx.violation("standard_normal:not-strictly-increasing-in-rank:%s%s" % (mkey, sfx), case,
+                          "n=%d: value %d has a lower %s rank than value %d but score %r !< %r" % (
+                              n, a, mkey, b, float(u[a]), float(u[b])))
+            return
+        if not (rk[lo[0]] < rk[hi[0]]):
+            ctx.violation("standard_normal:returned-ranks:%s%s" % (mkey, sfx), case,
+                          "n=%d: returned ranks %r (value %d) and %r (value %d) do not order like the %s ranks" % (
+                              n, rk[lo[0]], lo[0], rk[hi[0]], hi[0], mkey))
+            return
+
+
+def gen_vec(spec):
+    """standard_normal ladder vectors (NaN-free)"""
+    return gen_col(spec)
+
+
+def run_snormlad_unit(unit, ctx):
+    first = True
+    for n in unit["ns"]:
+        for gi, g in enumerate(("ties", "ramp", "two", "fine")):
+            spec = {"gen": g, "n": n, "seed": unit["seed"]}
+            x = gen_vec(spec)
+            for mi, method in enumerate(METHODS):
+                for ci, cst in enumerate(unit["csts"]):
+                    lay = SNORM_LAYOUTS if (ci == (mi + gi) % len(unit["csts"])) else ()
+                    check_snorm(ctx, x, cst, method, False, sample=first and n < 40, spec=spec, layouts=lay,
+                                sfx=":ladder")
+                    first = False
+            xs = sorted(x)
+            sspec = dict(spec, sort=True)
+            for cst in unit["csts"][:2]:
+                check_snorm(ctx, xs, cst, "average", True, spec=sspec, layouts=SNORM_LAYOUTS[:3], sfx=":ladder")
 
 
 def run_snorm_unit(unit, ctx):
@@ -483,40 +960,72 @@ def pareto_ref(data, orientation):
     return strict, (vac & ~strict)
 
 
+def pareto_ref_blocks(data, orientation, block=128):
+    """pareto_ref for many points: the same pairwise definition evaluated for `block` rows at a time
+    (memory block x n x d instead of n x n x d)"""
+    n = data.shape[0]
+    strict = np.zeros(n, dtype=bool)
+    vac = np.zeros(n, dtype=bool)
+    for i0 in range(0, n, block):
+        i1 = min(n, i0 + block)
+        diff = data[None, :, :] - data[i0:i1, None, :]      # [i, j, k] = data[j,k]-data[i0+i,k]
+        miss = np.isnan(diff)
+        better = (orientation * diff) > 0
+        pair = (better | miss).all(axis=2)
+        pair[np.arange(i1 - i0), np.arange(i0, i1)] = False
+        informative = (~miss).any(axis=2)
+        strict[i0:i1] = (pair & informative).any(axis=1)
+        vac[i0:i1] = (pair & ~informative).any(axis=1)
+    return strict, (vac & ~strict)
+
+
+PARETO_LAYOUTS = ["f32", "int64", "strided", "readonly", "frame"]
+
+
 def pareto_class(data):
     if np.isnan(data).any():
         return "nan-coordinates"
     return "complete"
 
 
-def check_pareto(ctx, data, variants=True, sample=False):
-    """data: float64 (n,d). Runs both orientations (+ negation and layout relations)."""
+def check_pareto(ctx, data, variants=True, sample=False, spec=None, layouts=(), sfx=""):
+    """data: float64 (n,d). Runs both orientations (+ negation and layout relations).
+    spec: compact description of generated data (gen_pareto) used in the case instead of the cells;
+    layouts: both orientations are run again with the same values in these layouts."""
     from hydrodiy.stat import sutils
     n, d = data.shape
 
     def case(orient):
-        return {"kind": "pareto", "data": [enc_list(r) for r in data.tolist()], "shape": [n, d],
-                "orientation": orient}
+        c = {"kind": "pareto", "shape": [n, d], "orientation": orient}
+        if spec is not None:
+            c["gen"] = spec
+        else:
+            c["data"] = [enc_list(r) for r in data.tolist()]
+        if layouts:
+            c["layouts"] = list(layouts)
+        if sfx:
+            c["sfx"] = sfx
+        return c
     res = {}
     for orient in (1, -1):
         try:
             out = sutils.pareto_front(data, orient)
         except Exception as e:
             ctx.case(n >= 2)
-            ctx.violation("pareto_front:raised:%s" % type(e).__name__, case(orient), "raised %r" % (e,))
+            ctx.violation("pareto_front:raised:%s%s" % (type(e).__name__, sfx), case(orient), "raised %r" % (e,))
             return
         out = np.asarray(out)
         res[orient] = out
         ctx.case(n >= 2, outcome=(orient, out.tobytes()), sample=case(orient) if (sample and orient == 1) else None)
         if out.shape != (n,):
-            ctx.violation("pareto_front:length", case(orient), "expected %d flags, got shape %r" % (n, out.shape))
+            ctx.violation("pareto_front:length" + sfx, case(orient), "expected %d flags, got shape %r" % (n, out.shape))
             return
         if n == 0:
             continue
         if not np.isin(out, (0, 1)).all():
-            ctx.violation("pareto_front:flag-values", case(orient), "flags outside {0,1}: %r" % out.tolist())
+            ctx.violation("pareto_front:flag-values" + sfx, case(orient), "flags outside {0,1}: %s" % show(out.tolist()))
             return
-        must, may = pareto_ref(data, orient)
+        must, may = pareto_ref(data, orient) if n <= 256 else pareto_ref_blocks(data, orient)
         got = out == 1
         bad = (got != must) & ~may
         if may.any():
@@ -526,12 +1035,34 @@ def check_pareto(ctx, data, variants=True, sample=False):
         if bad.any():
             i = int(np.where(bad)[0][0])
             what = "dominated-not-flagged" if must[i] else "flagged-not-dominated"
-            ctx.violation("pareto_front:%s:%s:orientation=%d" % (what, pareto_class(data), orient), case(orient),
-                          "point %d %r: flag %d, definition says %d" % (i, data[i].tolist(), int(out[i]), int(must[i])),
-                          observed=out.tolist(), expected=must.astype(int).tolist())
+            ctx.violation("pareto_front:%s:%s:orientation=%d%s" % (what, pareto_class(data), orient, sfx), case(orient),
+                          "point %d %r of %d: flag %d, definition says %d" % (i, data[i].tolist(), n, int(out[i]), int(must[i])),
+                          observed=out.tolist() if n <= 300 else out[:300].tolist(),
+                          expected=must.astype(int).tolist() if n <= 300 else must[:300].astype(int).tolist())
         if not np.isnan(data).any() and got.all():
-            ctx.violation("pareto_front:empty-front:complete-data:orientation=%d" % orient, case(orient),
-                          "every point of a complete data set is flagged dominated", observed=out.tolist())
+            ctx.violation("pareto_front:empty-front:complete-data:orientation=%d%s" % (orient, sfx), case(orient),
+                          "every point of a complete data set is flagged dominated",
+                          observed=out.tolist() if n <= 300 else out[:300].tolist())
+    # ---- the same values in other layouts / dtypes: same flags
+    for name in (layouts if n > 0 else ()):
+        v = variant_2d(data, name)
+        if v is None:
+            ctx.count("layout-not-applicable.pareto_front.%s" % name)
+            continue
+        for orient in (1, -1):
+            try:
+                alt = np.asarray(sutils.pareto_front(v, orient))
+            except Exception as e:
+                ctx.case(n >= 2)
+                ctx.count("layout-rejected.pareto_front.%s.%s" % (name, type(e).__name__))
+                break
+            ctx.case(n >= 2, outcome=(name, orient, alt.tobytes()))
+            ctx.count("layout.pareto_front.%s" % name)
+            if alt.shape != res[orient].shape or not np.array_equal(alt, res[orient]):
+                ctx.violation("pareto_front:layout=%s" % name, case(orient),
+                              "%d x %d points given as %s: flags differ from the float64 C-ordered call (%d flags differ)" % (
+                                  n, d, name, -1 if alt.shape != res[orient].shape else int((alt != res[orient]).sum())))
+                break
     if not variants or n == 0:
         return
     # orientation -1 == negated data with orientation +1
@@ -539,17 +1070,17 @@ def check_pareto(ctx, data, variants=True, sample=False):
         neg = np.asarray(sutils.pareto_front(-data, 1))
         ctx.case(n >= 2, outcome=("neg", neg.tobytes()))
         if not np.array_equal(neg, res[-1]):
-            ctx.violation("pareto_front:orientation-vs-negation:%s" % pareto_class(data), case(-1),
-                          "pareto_front(data,-1)=%r but pareto_front(-data,+1)=%r" % (res[-1].tolist(), neg.tolist()))
+            ctx.violation("pareto_front:orientation-vs-negation:%s%s" % (pareto_class(data), sfx), case(-1),
+                          "pareto_front(data,-1)=%s but pareto_front(-data,+1)=%s" % (show(res[-1].tolist()), show(neg.tolist())))
     except Exception as e:
         ctx.case(n >= 2)
-        ctx.violation("pareto_front:raised:%s" % type(e).__name__, case(1), "negated data raised %r" % (e,))
+        ctx.violation("pareto_front:raised:%s%s" % (type(e).__name__, sfx), case(1), "negated data raised %r" % (e,))
     if d >= 2 and n >= 2:
         f = np.asarray(sutils.pareto_front(np.asfortranarray(data), 1))
         ctx.case(True, outcome=("F", f.tobytes()))
         if not np.array_equal(f, res[1]):
-            ctx.violation("pareto_front:fortran-layout", case(1),
-                          "Fortran-ordered input gives %r, C-ordered %r" % (f.tolist(), res[1].tolist()))
+            ctx.violation("pareto_front:fortran-layout" + sfx, case(1),
+                          "Fortran-ordered input gives %s, C-ordered %s" % (show(f.tolist()), show(res[1].tolist())))
 
 
 def pareto_shapes(maxcells):
@@ -570,6 +1101,19 @@ def run_pareto_unit(unit, ctx):
         data = np.array(pre + list(rest), dtype=np.float64).reshape(n, d)
         check_pareto(ctx, data, sample=first)
         first = False
+
+
+def run_paretolad_unit(unit, ctx):
+    d = unit["d"]
+    first = True
+    for n in unit["ns"]:
+        gens = ["ties", "chain", "lattice", "lattice-nan", "lattice-fine"] + (["anti", "front"] if d >= 2 else [])
+        for gi, g in enumerate(gens):
+            spec = {"gen": g, "n": n, "d": d, "seed": unit["seed"]}
+            check_pareto(ctx, gen_pareto(spec), sample=first and n < 40, spec=spec,
+                         layouts=PARETO_LAYOUTS if g in ("lattice", "lattice-nan", "lattice-fine", "front", "chain") else (),
+                         sfx=":ladder")
+            first = False
 
 
 def pareto_base(kind, n, d, seed):
@@ -675,14 +1219,14 @@ def ref_box(col, box, whisk):
     return exp, lv
 
 
-def judge_box(ctx, func, col, box, whisk, get, case):
+def judge_box(ctx, func, col, box, whisk, get, case, sfx=""):
     """get(label) -> observed float (NaN when the label is absent)"""
     exp, lv = ref_box(col, box, whisk)
     cls = col_class(col)
     nfin = exp["count"]
     cnt = get("count")
     if not (cnt == nfin):
-        ctx.violation("%s:count:%s" % (func, cls), case,
+        ctx.violation("%s:count:%s%s" % (func, cls, sfx), case,
                       "count %r but the column holds %d finite values" % (cnt, nfin), observed=enc(cnt), expected=nfin)
     names = [(lab, STATN[i], 1e-9) for i, (lab, _) in enumerate(lv)] + \
             [("mean", "mean", 1e-12), ("min", "min", 1e-12), ("max", "max", 1e-12)]
@@ -695,13 +1239,13 @@ def judge_box(ctx, func, col, box, whisk, get, case):
                 ctx.count("box.lt4-finite.nan-row-accepted")
                 continue
             if exp[lab] is None:
-                ctx.violation("%s:%s:value-without-data:%s" % (func, nm, cls), case,
+                ctx.violation("%s:%s:value-without-data:%s%s" % (func, nm, cls, sfx), case,
                               "%s = %r but the column has no finite value" % (lab, o))
                 continue
         if not feq(o, exp[lab], tol):
-            ctx.violation("%s:%s:%s" % (func, nm, cls), case,
-                          "%s: observed %r, %s of the finite values %s is %r" % (
-                              lab, o, nm, [float(v) for v in col if math.isfinite(v)],
+            ctx.violation("%s:%s:%s%s" % (func, nm, cls, sfx), case,
+                          "%s: observed %r, %s of the %d finite values %s is %r" % (
+                              lab, o, nm, nfin, show([float(v) for v in col if math.isfinite(v)]),
                               None if exp[lab] is None else float(exp[lab])),
                           observed=enc(o), expected=None if exp[lab] is None else float(exp[lab]))
     seq = [obs[k] for k in ("min", "whisker-low", "box-low", "median", "box-high", "whisker-high", "max")]
@@ -709,30 +1253,62 @@ def judge_box(ctx, func, col, box, whisk, get, case):
         ctx.count("box.order-checked")
         for a, b in zip(seq[:-1], seq[1:]):
             if a > b + 1e-12 * max(1.0, abs(b)):
-                ctx.violation("%s:order:%s" % (func, cls), case,
+                ctx.violation("%s:order:%s%s" % (func, cls, sfx), case,
                               "min <= percentiles <= max violated: %r" % (seq,), observed=enc_list(seq))
                 break
 
 
-def check_bs(ctx, col, box, whisk, sample=False):
+def check_bs(ctx, col, box, whisk, sample=False, spec=None, layouts=(), sfx=""):
     from hydrodiy.plot.boxplot import boxplot_stats
-    case = {"kind": "bs", "col": enc_list(col), "box": box, "whisk": whisk}
+    case = {"kind": "bs", "col": spec if spec is not None else enc_list(col), "box": box, "whisk": whisk}
+    if layouts:
+        case["layouts"] = list(layouts)
+    if sfx:
+        case["sfx"] = sfx
     nt = nontrivial_col(col)
     try:
         st = boxplot_stats(np.array(col, dtype=np.float64), box, whisk)
     except Exception as e:
         ctx.case(nt)
-        ctx.violation("boxplot_stats:raised:%s:%s" % (type(e).__name__, col_class(col)), case, "raised %r" % (e,))
+        ctx.violation("boxplot_stats:raised:%s:%s%s" % (type(e).__name__, col_class(col), sfx), case, "raised %r" % (e,))
         return
     ctx.case(nt, outcome=hash(np.asarray(st.values, dtype=np.float64).tobytes()), sample=case if sample else None)
     d = {k: float(v) for k, v in zip(st.index, st.values)}
-    judge_box(ctx, "boxplot_stats", col, box, whisk, lambda lab: d.get(lab, NAN), case)
+    judge_box(ctx, "boxplot_stats", col, box, whisk, lambda lab: d.get(lab, NAN), case, sfx)
+    # ---- the same column in other layouts
+    for name in layouts:
+        v = variant_1d(col, name)
+        if v is None:
+            ctx.count("layout-not-applicable.boxplot_stats.%s" % name)
+            continue
+        try:
+            st2 = boxplot_stats(v, box, whisk)
+        except Exception as e:
+            ctx.case(nt)
+            ctx.count("layout-rejected.boxplot_stats.%s.%s" % (name, type(e).__name__))
+            continue
+        ctx.case(nt, outcome=(name, hash(np.asarray(st2.values, dtype=np.float64).tobytes())))
+        ctx.count("layout.boxplot_stats.%s" % name)
+        # float32 data: numpy interpolates the percentiles and averages in float32 (6e-8 relative rounding)
+        w = same_table(st2, st, 2e-5 if name == "f32" else 1e-9)
+        if w is not None:
+            ctx.violation("boxplot_stats:layout=%s" % name, case,
+                          "boxplot_stats of the same %d values given as %s differs from the float64 array call: %s" % (
+                              len(col), name, w))
 
 
-def check_bx(ctx, cols, box, whisk, inp, sample=False):
+BX_LAYOUTS = ["fortran", "f32", "int64", "strided", "readonly", "frame"]
+
+
+def check_bx(ctx, cols, box, whisk, inp, sample=False, specs=None, layouts=(), sfx=""):
     """Boxplot(frame of columns).stats ; inp in frame / array / series (series: one column)"""
     from hydrodiy.plot.boxplot import Boxplot
-    case = {"kind": "bx", "cols": [enc_list(c) for c in cols], "box": box, "whisk": whisk, "input": inp}
+    case = {"kind": "bx", "cols": specs if specs is not None else [enc_list(c) for c in cols], "box": box,
+            "whisk": whisk, "input": inp}
+    if layouts:
+        case["layouts"] = list(layouts)
+    if sfx:
+        case["sfx"] = sfx
     nt = any(nontrivial_col(c) for c in cols)
     arr = np.array(cols, dtype=np.float64).reshape(len(cols), -1).T
     names = list(range(len(cols)))
@@ -749,7 +1325,7 @@ def check_bx(ctx, cols, box, whisk, inp, sample=False):
         st = Boxplot(data, box_coverage=box, whiskers_coverage=whisk).stats
     except Exception as e:
         ctx.case(nt, n=len(cols))
-        ctx.violation("Boxplot.stats:raised:%s" % type(e).__name__, case, "Boxplot raised %r" % (e,))
+        ctx.violation("Boxplot.stats:raised:%s%s" % (type(e).__name__, sfx), case, "Boxplot raised %r" % (e,))
         return
     ctx.case(nt, n=len(cols), outcome=hash(np.asarray(st.values, dtype=np.float64).tobytes()),
              sample=case if sample else None)
@@ -758,26 +1334,70 @@ def check_bx(ctx, cols, box, whisk, inp, sample=False):
         return
     for j, col in enumerate(cols):
         if names[j] not in st.columns:
-            ctx.violation("Boxplot.stats:column-missing", case, "column %r missing from stats" % (names[j],))
+            ctx.violation("Boxplot.stats:column-missing" + sfx, case, "column %r missing from stats" % (names[j],))
             continue
         se = st[names[j]]
         d = {k: float(v) for k, v in zip(se.index, se.values)}
-        judge_box(ctx, "Boxplot.stats", col, box, whisk, lambda lab: d.get(lab, NAN), dict(case, column=j))
+        judge_box(ctx, "Boxplot.stats", col, box, whisk, lambda lab: d.get(lab, NAN), dict(case, column=j), sfx)
+    # ---- the same block of columns in other layouts
+    for name in layouts:
+        if arr.shape[1] > 1:
+            v = variant_2d(arr, name)
+        else:
+            v = None if name == "fortran" else variant_1d(arr[:, 0], "series" if name == "frame" else name)
+        if v is None:
+            ctx.count("layout-not-applicable.Boxplot.%s" % name)
+            continue
+        try:
+            st2 = Boxplot(v, box_coverage=box, whiskers_coverage=whisk).stats
+        except Exception as e:
+            ctx.case(nt, n=len(cols))
+            ctx.count("layout-rejected.Boxplot.%s.%s" % (name, type(e).__name__))
+            continue
+        ctx.case(nt, n=len(cols), outcome=(name, hash(np.asarray(st2.values, dtype=np.float64).tobytes())))
+        ctx.count("layout.Boxplot.%s" % name)
+        w = same_table(st2, st, 1e-9)
+        if w is not None:
+            ctx.violation("Boxplot.stats:layout=%s" % name, case,
+                          "Boxplot(%d x %d values given as %s).stats differs from the float64 call: %s" % (
+                              arr.shape[0], arr.shape[1], name, w))
 
 
-def check_by(ctx, col, by, box, whisk, sample=False):
+BY_LAYOUTS = ["series", "strided", "f32", "int64", "readonly", "by-array", "by-series"]
+
+
+def by_variant(col, by, name):
+    """-> (data, by) in another layout or None"""
+    n = len(col)
+    if name == "series":            # data and by as Series sharing a non-default index
+        idx = 5 + 3 * np.arange(n)[::-1]
+        return pd.Series(np.array(col, dtype=np.float64), index=idx), pd.Series(list(by), index=idx)
+    if name == "by-array":
+        return np.array(col, dtype=np.float64), np.array(list(by))
+    if name == "by-series":
+        return np.array(col, dtype=np.float64), pd.Series(list(by), name="grp")
+    v = variant_1d(col, name)
+    return None if v is None else (v, list(by))
+
+
+def check_by(ctx, col, by, box, whisk, sample=False, spec=None, byspec=None, layouts=(), sfx=""):
     from hydrodiy.plot.boxplot import Boxplot
-    case = {"kind": "by", "col": enc_list(col), "by": list(by), "box": box, "whisk": whisk}
+    case = {"kind": "by", "col": spec if spec is not None else enc_list(col),
+            "by": byspec if byspec is not None else list(by), "box": box, "whisk": whisk}
+    if layouts:
+        case["layouts"] = list(layouts)
+    if sfx:
+        case["sfx"] = sfx
     try:
         st = Boxplot(np.array(col, dtype=np.float64), by=list(by), box_coverage=box, whiskers_coverage=whisk).stats
     except Exception as e:
         ctx.case(True)
-        ctx.violation("Boxplot.stats[by]:raised:%s" % type(e).__name__, case, "Boxplot(by=) raised %r" % (e,))
+        ctx.violation("Boxplot.stats[by]:raised:%s%s" % (type(e).__name__, sfx), case, "Boxplot(by=) raised %r" % (e,))
         return
     ctx.case(True, outcome=hash(np.asarray(st.values, dtype=np.float64).tobytes()), sample=case if sample else None)
     cats = sorted(set(by))
     if sorted(st.columns.tolist()) != cats:
-        ctx.violation("Boxplot.stats[by]:categories", case,
+        ctx.violation("Boxplot.stats[by]:categories" + sfx, case,
                       "stats columns %r, categories %r" % (st.columns.tolist(), cats))
         return
     for c in cats:
@@ -788,7 +1408,31 @@ def check_by(ctx, col, by, box, whisk, sample=False):
             if lab not in d:
                 ctx.count("by.row-absent-read-as-nan")
                 break
-        judge_box(ctx, "Boxplot.stats[by]", sub, box, whisk, lambda lab: d.get(lab, NAN), dict(case, group=c))
+        judge_box(ctx, "Boxplot.stats[by]", sub, box, whisk, lambda lab: d.get(lab, NAN), dict(case, group=c), sfx)
+    # ---- the same data / grouping vector in other layouts
+    for name in layouts:
+        v = by_variant(col, by, name)
+        if v is None:
+            ctx.count("layout-not-applicable.Boxplot[by].%s" % name)
+            continue
+        try:
+            st2 = Boxplot(v[0], by=v[1], box_coverage=box, whiskers_coverage=whisk).stats
+        except Exception as e:
+            ctx.case(True)
+            ctx.count("layout-rejected.Boxplot[by].%s.%s" % (name, type(e).__name__))
+            continue
+        ctx.case(True, outcome=(name, hash(np.asarray(st2.values, dtype=np.float64).tobytes())))
+        ctx.count("layout.Boxplot[by].%s" % name)
+        w = None
+        if sorted(map(str, st2.columns.tolist())) != sorted(map(str, st.columns.tolist())):
+            w = "categories %r vs %r" % (st2.columns.tolist(), st.columns.tolist())
+        else:
+            st2 = st2[list(st.columns)]
+            w = same_table(st2, st, 1e-9)
+        if w is not None:
+            ctx.violation("Boxplot.stats[by]:layout=%s" % name, case,
+                          "Boxplot(%d values given as %s, by=).stats differs from the float64 array / list call: %s" % (
+                              len(col), name, w))
 
 
 VSTAT = [("Q0", "low-extreme", Fraction(0)), ("Q25", "low-quartile", Fraction(1, 4)),
@@ -796,7 +1440,7 @@ VSTAT = [("Q0", "low-extreme", Fraction(0)), ("Q25", "low-quartile", Fraction(1,
          ("Q100", "high-extreme", Fraction(1))]
 
 
-def judge_violin_col(ctx, col, st, kx, ky, case):
+def judge_violin_col(ctx, col, st, kx, ky, case, sfx=""):
     cls = col_class(col)
     fin = sorted(Fraction(v) for v in col if math.isfinite(v))
     for lab, nm, q in VSTAT:
@@ -806,9 +1450,9 @@ def judge_violin_col(ctx, col, st, kx, ky, case):
             o = NAN
         e = ref_quantile(fin, q) if fin else None
         if not feq(o, e, 1e-9):
-            ctx.violation("Violin:stats:%s:%s" % (nm, cls), case,
-                          "%s: observed %r, %s of the finite values %s is %r" % (
-                              lab, o, nm, [float(v) for v in fin], None if e is None else float(e)),
+            ctx.violation("Violin:stats:%s:%s%s" % (nm, cls, sfx), case,
+                          "%s: observed %r, %s of the %d finite values %s is %r" % (
+                              lab, o, nm, len(fin), show([float(v) for v in fin]), None if e is None else float(e)),
                           observed=enc(o), expected=None if e is None else float(e))
     ky = np.asarray(ky, dtype=np.float64)
     kx = np.asarray(kx, dtype=np.float64)
@@ -818,11 +1462,11 @@ def judge_violin_col(ctx, col, st, kx, ky, case):
         ctx.count("violin.kde-all-nan.degenerate-column")
         return
     if len(ky) == 0:
-        ctx.violation("Violin:kde_y:empty-profile:%s" % cls, case, "no density profile for %d finite values" % len(fin))
+        ctx.violation("Violin:kde_y:empty-profile:%s%s" % (cls, sfx), case, "no density profile for %d finite values" % len(fin))
         return
     ctx.count("violin.kde-judged")
     if np.isnan(ky).any() or not (abs(float(ky.min())) <= 1e-12 and abs(float(ky.max()) - 1.0) <= 1e-12):
-        ctx.violation("Violin:kde_y:not-normalised:%s" % cls, case,
+        ctx.violation("Violin:kde_y:not-normalised:%s%s" % (cls, sfx), case,
                       "density profile of %d finite values: min %r max %r nan %d (expected 0 .. 1)" % (
                           len(fin), float(np.nanmin(ky)) if not allnan else NAN,
                           float(np.nanmax(ky)) if not allnan else NAN, int(np.isnan(ky).sum())))
@@ -841,10 +1485,17 @@ def violin_exc_key(e, col):
     return "Violin:raised:%s:%s" % (type(e).__name__, cls)
 
 
-def check_violin(ctx, env, cols, jit, sample=False):
+VI_LAYOUTS = ["fortran", "f32", "int64", "strided", "readonly", "frame"]
+
+
+def check_violin(ctx, env, cols, jit, sample=False, specs=None, layouts=(), sfx=""):
     """Violin(frame).stats/kde ; when a frame raises every column is re-run alone for attribution"""
     from hydrodiy.plot.violinplot import Violin
-    case = {"kind": "violin", "cols": [enc_list(c) for c in cols], "jitter": jit}
+    case = {"kind": "violin", "cols": specs if specs is not None else [enc_list(c) for c in cols], "jitter": jit}
+    if layouts:
+        case["layouts"] = list(layouts)
+    if sfx:
+        case["sfx"] = sfx
     nt = any(nontrivial_col(c) for c in cols)
     arr = np.array(cols, dtype=np.float64).reshape(len(cols), -1).T
     env.script(None, jit)
@@ -854,11 +1505,11 @@ def check_violin(ctx, env, cols, jit, sample=False):
     except Exception as e:
         ctx.case(nt, n=len(cols))
         if len(cols) == 1:
-            ctx.violation(violin_exc_key(e, cols[0]), case, "Violin raised %r" % (e,))
+            ctx.violation(violin_exc_key(e, cols[0]) + sfx, case, "Violin raised %r" % (e,))
         else:
             ctx.count("violin.frame-raised-rerun-per-column")
-            for c in cols:
-                check_violin(ctx, env, [c], jit)
+            for ci, c in enumerate(cols):
+                check_violin(ctx, env, [c], jit, specs=None if specs is None else [specs[ci]], sfx=sfx)
         return
     ctx.case(nt, n=len(cols), outcome=hash(np.asarray(st.values, dtype=np.float64).tobytes()
                                            + np.asarray(ky.values, dtype=np.float64).tobytes()),
@@ -867,9 +1518,38 @@ def check_violin(ctx, env, cols, jit, sample=False):
         ctx.count("violin.jitter-answer-consumed")
     for j, col in enumerate(cols):
         if j not in st.columns or j not in ky.columns or j not in kx.columns:
-            ctx.violation("Violin:column-missing", case, "column %d missing from stats / kde" % j)
+            ctx.violation("Violin:column-missing" + sfx, case, "column %d missing from stats / kde" % j)
             continue
-        judge_violin_col(ctx, col, st[j], kx[j].values, ky[j].values, dict(case, column=j))
+        judge_violin_col(ctx, col, st[j], kx[j].values, ky[j].values, dict(case, column=j), sfx)
+    # ---- the same block of columns in other layouts (same scripted jitter answer)
+    for name in layouts:
+        if arr.shape[1] > 1:
+            v = variant_2d(arr, name)
+        else:
+            v = None if name == "fortran" else variant_1d(arr[:, 0], "series" if name == "frame" else name)
+        if v is None:
+            ctx.count("layout-not-applicable.Violin.%s" % name)
+            continue
+        env.script(None, jit)
+        try:
+            vl2 = Violin(v)
+            st2, kx2, ky2 = vl2.stats, vl2.kde_x, vl2.kde_y
+        except Exception as e:
+            ctx.case(nt, n=len(cols))
+            ctx.count("layout-rejected.Violin.%s.%s" % (name, type(e).__name__))
+            continue
+        ctx.case(nt, n=len(cols), outcome=(name, hash(np.asarray(st2.values, dtype=np.float64).tobytes())))
+        ctx.count("layout.Violin.%s" % name)
+        w = same_table(st2, st, 1e-9)
+        what = "stats"
+        if w is None:
+            w, what = same_table(ky2, ky, 1e-9), "kde_y"
+        if w is None:
+            w, what = same_table(kx2, kx, 1e-9), "kde_x"
+        if w is not None:
+            ctx.violation("Violin:layout=%s:%s" % (name, what), case,
+                          "Violin(%d x %d values given as %s).%s differs from the float64 call: %s" % (
+                              arr.shape[0], arr.shape[1], name, what, w))
 
 
 # --------------------------------------------------------------------------- column units
@@ -968,6 +1648,46 @@ def run_bigcol_unit(unit, ctx):
                 first = False
             check_bx(ctx, [col], 50, 90, "series")
             check_violin(ctx, env, [col], "m")
+    finally:
+        env.restore()
+
+
+def run_boxlad_unit(unit, ctx):
+    """columns with n values, n on the size ladder: boxplot_stats, Boxplot, Boxplot(by=), Violin"""
+    env = Env()
+    env.install()
+    try:
+        first = True
+        seed = unit["seed"]
+        for n in unit["ns"]:
+            sp = {g: {"gen": g, "n": n, "seed": seed} for g in ("ties", "ramp", "holes", "onenan", "two", "decimal")}
+            co = {g: gen_col(sp[g]) for g in sp}
+            for gi, g in enumerate(("ties", "ramp", "holes", "onenan", "two", "decimal")):
+                for pi, (box, whisk) in enumerate(((50, 90), (99, 99.9), (40, 41))):
+                    check_bs(ctx, co[g], box, whisk, sample=first and n < 40, spec=sp[g],
+                             layouts=LAY1 if pi == gi % 3 else (), sfx=":ladder")
+                    first = False
+            tri = ["ties", "ramp", "holes"]
+            check_bx(ctx, [co[g] for g in tri], 50, 90, "frame", specs=[sp[g] for g in tri], sfx=":ladder")
+            check_bx(ctx, [co[g] for g in tri], 99, 99.9, "array", specs=[sp[g] for g in tri],
+                     layouts=BX_LAYOUTS, sfx=":ladder")
+            duo = ["decimal", "two"]
+            check_bx(ctx, [co[g] for g in duo], 75, 90, "array", specs=[sp[g] for g in duo],
+                     layouts=BX_LAYOUTS, sfx=":ladder")
+            check_bx(ctx, [co["onenan"]], 50, 90, "series", specs=[sp["onenan"]], layouts=BX_LAYOUTS, sfx=":ladder")
+            check_bx(ctx, [co["ties"]], 40, 41, "array1d", specs=[sp["ties"]], sfx=":ladder")
+            for g in ("ties", "holes", "decimal"):
+                for bi, bg in enumerate(("mod", "blocks")):
+                    bs = {"gen": bg, "n": n}
+                    check_by(ctx, co[g], gen_by(bs), 50, 90, spec=sp[g], byspec=bs,
+                             layouts=BY_LAYOUTS if (g, bg) in (("ties", "mod"), ("holes", "blocks"), ("decimal", "mod")) else (),
+                             sfx=":ladder")
+            check_violin(ctx, env, [co[g] for g in tri], "m", specs=[sp[g] for g in tri], layouts=VI_LAYOUTS,
+                         sfx=":ladder")
+            check_violin(ctx, env, [co[g] for g in duo], "l", specs=[sp[g] for g in duo], layouts=VI_LAYOUTS,
+                         sfx=":ladder")
+            check_violin(ctx, env, [co["onenan"]], "h", specs=[sp["onenan"]], layouts=VI_LAYOUTS, sfx=":ladder")
+            check_violin(ctx, env, [co["ties"]], "m", specs=[sp["ties"]], sfx=":ladder")
     finally:
         env.restore()
 
@@ -1130,6 +1850,29 @@ def units(tier, seed):
         # columns longer than 500 values (every 53rd member of the 700-value deviation family)
         for part in range(4):
             us.append({"kind": "bigcol", "n": 700, "seed": seed, "slice": [0, 3 * 700 + 4], "stride": [part, 53 * 4]})
+    # ---- size ladder (+ layout variants)
+    lad = LADDER if quick else LADDER + LADDER_X
+
+    def groups(maxsum):
+        out, cur = [], []
+        for n in lad:
+            if cur and sum(cur) + n > maxsum:
+                out.append(cur)
+                cur = []
+            cur.append(n)
+        if cur:
+            out.append(cur)
+        return out
+    for g in groups(1100):
+        us.append({"kind": "boxlad", "ns": g, "seed": seed})
+    for d in (1, 2, 3, 5):
+        for g in groups(2100):
+            us.append({"kind": "paretolad", "ns": g, "d": d, "seed": seed})
+    for g in groups(1100):
+        us.append({"kind": "snormlad", "ns": g, "seed": seed, "csts": [0.0, 0.3, 0.5]})
+    for g in groups(1100):
+        us.append({"kind": "lhslad", "ns": g})
+    us.append({"kind": "pposlad", "ns": lad, "csts": csts})
     return us
 
 
@@ -1137,8 +1880,14 @@ def run_unit(unit, ctx):
     k = unit["kind"]
     if k.startswith("lhs"):
         run_lhs_unit(unit, ctx)
-    elif k == "ppos":
+    elif k in ("ppos", "pposlad"):
         run_ppos_unit(unit, ctx)
+    elif k == "boxlad":
+        run_boxlad_unit(unit, ctx)
+    elif k == "paretolad":
+        run_paretolad_unit(unit, ctx)
+    elif k == "snormlad":
+        run_snormlad_unit(unit, ctx)
     elif k == "snorm":
         run_snorm_unit(unit, ctx)
     elif k == "pareto":
@@ -1170,23 +1919,46 @@ def replay(case):
     try:
         if k == "lhs":
             check_lhs(ctx, env, case["n"], case["pmin"], case["pmax"], case["perms"], case["jitter"],
-                      seed=case.get("seed"), scalar_pmax=case.get("scalar_pmax", False))
+                      seed=case.get("seed"), scalar_pmax=case.get("scalar_pmax", False),
+                      layouts=case.get("layouts", ()), sfx=case.get("sfx", ""))
         elif k == "ppos":
-            check_ppos(ctx, case["n"], case["cst"])
+            check_ppos(ctx, case["n"], case["cst"], layouts=case.get("layouts", ()), sfx=case.get("sfx", ""))
         elif k == "snorm":
-            check_snorm(ctx, [dec(v) for v in case["x"]], case["cst"], case["method"], case["sorted"])
+            x = case["x"]
+            if isinstance(x, dict):
+                xv = gen_col(x)
+                xv = sorted(xv) if x.get("sort") else xv
+            else:
+                xv = [dec(v) for v in x]
+            check_snorm(ctx, xv, case["cst"], case["method"], case["sorted"],
+                        spec=x if isinstance(x, dict) else None, layouts=case.get("layouts", ()),
+                        sfx=case.get("sfx", ""))
         elif k == "pareto":
             n, d = case["shape"]
-            data = np.array([[dec(v) for v in r] for r in case["data"]], dtype=np.float64).reshape(n, d)
-            check_pareto(ctx, data)
+            if "gen" in case:
+                data = gen_pareto(case["gen"])
+            else:
+                data = np.array([[dec(v) for v in r] for r in case["data"]], dtype=np.float64).reshape(n, d)
+            check_pareto(ctx, data, spec=case.get("gen"), layouts=case.get("layouts", ()), sfx=case.get("sfx", ""))
         elif k == "bs":
-            check_bs(ctx, [dec(v) for v in case["col"]], case["box"], case["whisk"])
+            c = case["col"]
+            check_bs(ctx, expand_col(c), case["box"], case["whisk"], spec=c if isinstance(c, dict) else None,
+                     layouts=case.get("layouts", ()), sfx=case.get("sfx", ""))
         elif k == "bx":
-            check_bx(ctx, [[dec(v) for v in c] for c in case["cols"]], case["box"], case["whisk"], case["input"])
+            cs = case["cols"]
+            check_bx(ctx, [expand_col(c) for c in cs], case["box"], case["whisk"], case["input"],
+                     specs=cs if any(isinstance(c, dict) for c in cs) else None,
+                     layouts=case.get("layouts", ()), sfx=case.get("sfx", ""))
         elif k == "by":
-            check_by(ctx, [dec(v) for v in case["col"]], case["by"], case["box"], case["whisk"])
+            c, b = case["col"], case["by"]
+            check_by(ctx, expand_col(c), expand_by(b), case["box"], case["whisk"],
+                     spec=c if isinstance(c, dict) else None, byspec=b if isinstance(b, dict) else None,
+                     layouts=case.get("layouts", ()), sfx=case.get("sfx", ""))
         elif k == "violin":
-            check_violin(ctx, env, [[dec(v) for v in c] for c in case["cols"]], case["jitter"])
+            cs = case["cols"]
+            check_violin(ctx, env, [expand_col(c) for c in cs], case["jitter"],
+                         specs=cs if any(isinstance(c, dict) for c in cs) else None,
+                         layouts=case.get("layouts", ()), sfx=case.get("sfx", ""))
         else:
             raise ValueError("unknown case kind %r" % (k,))
     finally:
